@@ -94,6 +94,10 @@ EXPLANATION += (
     ' Round 10: aggregate_votes reads the vote table at positions that do not derive from the correlation table (R-PROV/votes-where-cast).'
 )
 
+EXPLANATION += (
+    ' Round 11: row totals are accumulated in a widened type and the CPM formula of C07 is shared; bootstrap_iteration reaches the election as configured (R-FWD/config-as-requested).'
+)
+
 RULE_TEXT = (
     "one obligation per draw, per block, per indexed comprehension, per "
     "provenance relation, per kernel function x configuration (type and "
